@@ -32,7 +32,9 @@ __all__ = ["Cache", "parallelise", "parallelise_keyless"]
 
 
 def _pickle_name(k: Hashable) -> str:
-    return f"{k}.p"
+    # repr, not str: str() maps different keys such as 1 and "1" (or (1, 2) and "(1, 2)") to the
+    # same file, so the second key would silently be answered with the first key's result
+    return f"{k!r}.p"
 
 
 def _pickle_load(file: Path) -> Any:
